@@ -33,7 +33,6 @@ import (
 	"encoding/json"
 	"fmt"
 	"os"
-	"path/filepath"
 	"runtime/debug"
 	"sort"
 	"strconv"
@@ -670,13 +669,14 @@ type state struct {
 	Digest string   `json:"d"`
 }
 
-type levelFile struct {
-	Al       alphabet `json:"al"`
-	Frontier []state  `json:"frontier"`
+// request = expand one frontier state
+type request struct {
+	Al     alphabet `json:"al"`
+	Hist   []string `json:"h"`
+	Digest string   `json:"d"`
 }
 
 type transOut struct {
-	From   int      `json:"f"`
 	Op     string   `json:"o"`
 	Digest string   `json:"d,omitempty"`
 	Fail   *fail    `json:"x,omitempty"`
@@ -687,73 +687,47 @@ type workerOut struct {
 	Trans []transOut `json:"t"`
 	Execs int        `json:"e"`
 	Err   string     `json:"err,omitempty"`
-	Cut   bool       `json:"cut"` // stopped early (deadline)
-	Ms    []int      `json:"ms,omitempty"`
+	Ms    int        `json:"ms"`
 }
 
-func workerMain(job string) {
-	// job = <level file>|<idx>|<stride>|<deadline unix>
-	p := strings.Split(job, "|")
-	idx, _ := strconv.Atoi(p[1])
-	stride, _ := strconv.Atoi(p[2])
-	dl, _ := strconv.ParseInt(p[3], 10, 64)
-	deadline := time.Unix(dl, 0)
-	var lf levelFile
-	b, err := os.ReadFile(p[0])
-	if err != nil {
-		evid.Fatalf("worker: %v", err)
-	}
-	if err := json.Unmarshal(b, &lf); err != nil {
-		evid.Fatalf("worker: %v", err)
-	}
+func serve(raw []byte) interface{} {
+	var rq request
 	var out workerOut
-	for i := idx; i < len(lf.Frontier); i += stride {
-		if time.Now().After(deadline) {
-			out.Cut = true
-			break
-		}
-		st := lf.Frontier[i]
-		par.Announce(strings.Join(st.Hist, " "))
-		base := run(&lf.Al, st.Hist, true)
-		out.Execs++
-		if base.Fail != nil || base.Digest != st.Digest {
-			out.Err = fmt.Sprintf("replay of clean history %v diverged: fail=%v digest %s vs recorded %s", st.Hist, base.Fail, base.Digest, st.Digest)
-			break
-		}
-		for _, o := range base.Ops {
-			h := append(append([]string{}, st.Hist...), o)
-			par.Announce(strings.Join(h, " "))
-			tr := time.Now()
-			r := run(&lf.Al, h, false)
-			if os.Getenv("C06_TIMING") != "" {
-				out.Ms = append(out.Ms, int(time.Since(tr).Milliseconds()))
-			}
-			out.Execs++
-			t := transOut{From: i, Op: o, Digest: r.Digest, C: r.C}
-			if r.Fail != nil {
-				if r.FailAt != len(h)-1 {
-					out.Err = fmt.Sprintf("history %v failed at clean prefix op %d: %s", h, r.FailAt, r.Fail.Sig)
-					break
-				}
-				// confirm twice
-				for k := 0; k < 2; k++ {
-					r2 := run(&lf.Al, h, false)
-					out.Execs++
-					if r2.Fail == nil || r2.Fail.Sig != r.Fail.Sig {
-						out.Err = fmt.Sprintf("failing history %v does not reproduce: %s then %v", h, r.Fail.Sig, r2.Fail)
-						break
-					}
-				}
-				t.Fail = r.Fail
-			}
-			out.Trans = append(out.Trans, t)
-		}
-		if out.Err != "" {
-			break
-		}
+	if err := json.Unmarshal(raw, &rq); err != nil {
+		out.Err = "bad request: " + err.Error()
+		return out
 	}
-	chainkit.Cleanup()
-	par.Emit(out)
+	t0 := time.Now()
+	defer func() { out.Ms = int(time.Since(t0).Milliseconds()) }()
+	base := run(&rq.Al, rq.Hist, true)
+	out.Execs++
+	if base.Fail != nil || base.Digest != rq.Digest {
+		out.Err = fmt.Sprintf("replay of clean history %v diverged: fail=%v digest %s vs recorded %s", rq.Hist, base.Fail, base.Digest, rq.Digest)
+		return out
+	}
+	for _, o := range base.Ops {
+		h := append(append([]string{}, rq.Hist...), o)
+		r := run(&rq.Al, h, false)
+		out.Execs++
+		t := transOut{Op: o, Digest: r.Digest, C: r.C}
+		if r.Fail != nil {
+			if r.FailAt != len(h)-1 {
+				out.Err = fmt.Sprintf("history %v failed at clean prefix op %d: %s", h, r.FailAt, r.Fail.Sig)
+				return out
+			}
+			for k := 0; k < 2; k++ { // confirm twice on fresh nodes
+				r2 := run(&rq.Al, h, false)
+				out.Execs++
+				if r2.Fail == nil || r2.Fail.Sig != r.Fail.Sig {
+					out.Err = fmt.Sprintf("failing history %v does not reproduce: %s then %v", h, r.Fail.Sig, r2.Fail)
+					return out
+				}
+			}
+			t.Fail = r.Fail
+		}
+		out.Trans = append(out.Trans, t)
+	}
+	return out
 }
 
 // ---------------------------------------------------------------------------------------------
@@ -775,7 +749,7 @@ type famResult struct {
 	samples     [][]string
 }
 
-func explore(r *evid.Run, al alphabet, scratch string, deadline time.Time, total *counters) famResult {
+func explore(r *evid.Run, al alphabet, pool *chainkit.Pool, deadline time.Time, total *counters) famResult {
 	start := time.Now()
 	fr := famResult{Family: al.Name, Alphabet: al, Exhaustive: true, OpKinds: map[string]int{}, Noops: map[string]int{}}
 	root := run(&al, nil, false)
@@ -794,58 +768,37 @@ func explore(r *evid.Run, al alphabet, scratch string, deadline time.Time, total
 	frontier := []state{{Hist: []string{}, Digest: root.Digest}}
 	fr.States = 1
 	fr.PerDepth = []int{1}
-	workers := par.Workers()
 	for depth := 0; depth < al.Depth && len(frontier) > 0; depth++ {
 		if time.Now().After(deadline) {
 			fr.Exhaustive = false
 			fr.Cap = fmt.Sprintf("time budget reached before depth %d", depth+1)
 			break
 		}
-		lf := levelFile{Al: al, Frontier: frontier}
-		b, _ := json.Marshal(lf)
-		lp := filepath.Join(scratch, fmt.Sprintf("%s-level%d.json", al.Name, depth))
-		if err := os.WriteFile(lp, b, 0o644); err != nil {
+		reqs := make([]interface{}, len(frontier))
+		for i, st := range frontier {
+			reqs[i] = request{Al: al, Hist: st.Hist, Digest: st.Digest}
+		}
+		outs, err := pool.Map(reqs, deadline)
+		if err != nil {
 			evid.Fatalf("C06: %v", err)
 		}
-		nw := workers
-		if nw > len(frontier) {
-			nw = len(frontier)
-		}
-		jobs := make([]string, nw)
-		for i := range jobs {
-			jobs[i] = fmt.Sprintf("%s|%d|%d|%d", lp, i, nw, deadline.Unix())
-		}
-		left := time.Until(deadline)
-		if left < 0 {
-			left = 0
-		}
-		// GOMAXPROCS=1: one worker process per core; a single P avoids long stop-the-world
-		// stalls on an oversubscribed machine (measured: steady state 5-10 ms per execution).
-		results := par.Procs(jobs, scratch, par.Opts{Timeout: left + 10*time.Minute, MemMB: 16384, Env: []string{"GOMAXPROCS=1"}})
 		var next []state
 		cut := false
 		byFrom := map[int][]transOut{}
-		for _, res := range results {
-			if res.Died || res.Out == nil {
-				evid.Fatalf("C06: worker %s died (announced %q): %s", res.Job, res.Announced, res.Stderr)
+		for i, raw := range outs {
+			if raw == nil {
+				cut = true
+				continue
 			}
 			var wo workerOut
-			if err := json.Unmarshal(res.Out, &wo); err != nil {
+			if err := json.Unmarshal(raw, &wo); err != nil {
 				evid.Fatalf("C06: worker output: %v", err)
 			}
 			if wo.Err != "" {
 				evid.Fatalf("C06: %s", wo.Err)
 			}
 			fr.Execs += int64(wo.Execs)
-			if len(wo.Ms) > 0 {
-				fmt.Println("worker ms:", wo.Ms)
-			}
-			if wo.Cut {
-				cut = true
-			}
-			for _, t := range wo.Trans {
-				byFrom[t.From] = append(byFrom[t.From], t)
-			}
+			byFrom[i] = wo.Trans
 		}
 		// merge in frontier order: deterministic state numbering and shortest-history choice
 		for i := range frontier {
@@ -887,8 +840,7 @@ func explore(r *evid.Run, al alphabet, scratch string, deadline time.Time, total
 }
 
 func main() {
-	if job, ok := par.Worker(); ok {
-		workerMain(job)
+	if chainkit.Serve(serve) {
 		return
 	}
 	if len(os.Args) > 1 && os.Args[1] == "--bench" {
@@ -930,8 +882,10 @@ func main() {
 		r.Finish(evid.Coverage{})
 	}
 
-	scratch := evid.Scratch("c06")
-	defer os.RemoveAll(scratch)
+	pool, err := chainkit.StartPool(par.Workers())
+	if err != nil {
+		evid.Fatalf("C06: pool: %v", err)
+	}
 	deadline := time.Now().Add(time.Duration(budget) * time.Second)
 	var total counters
 	var results []famResult
@@ -941,7 +895,7 @@ func main() {
 	depthDone := 1 << 30
 	samples := []interface{}{}
 	for _, al := range fams {
-		fr := explore(r, al, scratch, deadline, &total)
+		fr := explore(r, al, pool, deadline, &total)
 		results = append(results, fr)
 		states += fr.States
 		transitions += fr.Transitions
@@ -960,8 +914,8 @@ func main() {
 	if len(samples) == 0 {
 		samples = append(samples, []string{})
 	}
+	pool.Close()
 	chainkit.Cleanup()
-	os.RemoveAll(scratch)
 
 	// non-vacuity: engine-level expectations about the harness, not verdicts
 	if exhaustive && r.NumViolations() == 0 {
